@@ -2,7 +2,7 @@ _Q = {"big_every": "25", "huge_every": "200"}
 _T = {"big_every": "10", "huge_every": "150"}
 ENTRY = {
     "level": "proof",
-    "families": [fam("C22", 420, 15000, opts={"quick": _Q, "thorough": _T})],
+    "families": [fam("C22", 420, 4200, opts={"quick": _Q, "thorough": _T})],
     "gen_items": [],
     "rule": "family C22 over two generated tables t0(id0,a0,b0,c0,v0) / t1(id1,a1,b1,c1,v1): key columns a/b/c of the same type on both sides "
             "(BIGINT / INTEGER / VARCHAR / DATE), NULL density 0/10/50/100 % per key column, small domains (duplicates), BIGINT payload v with 10 % NULLs; "
